@@ -23,7 +23,11 @@ configuration is one the library documents as invalid):
     use_stochastic_rounding=True) only with string alpha (asserts in __call__);
   * stochastic_ternary(threshold != 1.0) (constructor assert);
   * quantized_linear.scale_axis is an int or None (docstring);
-  * relu_shift / relu_upper_bound of quantized_hswish positive (asserts).
+  * relu_shift / relu_upper_bound of quantized_hswish positive (asserts);
+  * array / tensor alpha only for quantized_linear (documented "Tensor");
+  * qnoise_factor in {1.0, 0.5, 0.0} for every class that has the knob;
+    post_training_scale as rank-0, rank-1 and keepdims-shaped (4,1), (1,4),
+    (1,1,4,1) arrays (what `q.scale.numpy()` of an auto quantizer looks like).
 
 The parameter *names* come from inspect.signature: a constructor that gains or
 loses a parameter makes `check_signatures` raise HarnessError (exit 2,
@@ -829,7 +833,7 @@ def lattice(tier):
   """Deterministic list of configs {"cls","kw"[,"single"]} (non-default
   options only): first, for every class, the one-option-at-a-time cases and
   the pairwise cover (= the quick lattice); in the thorough tier followed by
-  the full admissible product of every class that has at most 1100
+  the full admissible product of every class that has at most 1600
   configurations."""
   if tier in _lat_cache:
     return _lat_cache[tier]
@@ -855,7 +859,7 @@ def lattice(tier):
       add(cls, kw)
   if tier == "thorough":
     for cls in CLASSES:
-      fp = full_product(cls, limit=1100)
+      fp = full_product(cls, limit=1600)
       info[cls]["full_product"] = None if fp is None else len(fp)
       for kw in fp or []:
         add(cls, kw)
